@@ -119,6 +119,17 @@ theorem billed_monotone_unless (old new : Row) (hinv : Inv old)
       | none => trivial
       | some oe => have := hinv q oe hor hoe; simp; omega
 
+/-- a report that marks an activation timeout bills nothing: whatever is stored and whatever else the report carries (a start time
+in particular), the accepted row has no start time, so its billed duration is 0 -/
+theorem timeout_bills_nothing (old new : Row) (ht : isTimeout new) :
+    (upd old new).start_time = none ∧ billed (upd old new) = 0 := by
+  have hs : (upd old new).start_time = none := by
+    rw [upd, upd_eq_spec]
+    simp only [spec, spec6_start, spec5_start, spec4_start, spec3_start]
+    have hr : (spec1 old new).reason = some "activation_timeout" := by rw [spec1_reason]; exact ht
+    unfold spec2; rw [if_pos hr]
+  exact ⟨hs, by simp [billed, hs]⟩
+
 /-- the start time only ever moves earlier (unless the report marks an activation timeout, which erases it) -/
 theorem start_only_earlier (old new : Row) (s : Int) (hs : old.start_time = some s) (ht : ¬ isTimeout new) :
     ∃ s', (upd old new).start_time = some s' ∧ s' ≤ s := by
@@ -220,6 +231,15 @@ theorem seq_usage_eq (evs : List Ev) : Billed (AttemptBilling.run AttemptBilling
   | cons e es ih => intro a h; exact ih _ (step_billed a e h)
 
 open HailVerif.AttemptBilling in
+/-- a report that marks an activation timeout leaves nothing billed for any resource of the attempt -/
+theorem timeout_report_usage_zero (a : Att) (hb : Billed a) (new : Row) (ht : isTimeout new) :
+    ∀ r ∈ (a.step (.report new)).res, r.usage = 0 := by
+  intro r hr
+  rw [step_billed a (.report new) hb r hr]
+  have : (a.step (.report new)).row = upd a.row new := rfl
+  rw [this, (timeout_bills_nothing a.row new ht).2, Int.zero_mul]
+
+open HailVerif.AttemptBilling in
 /-- … hence never a negative amount (the aggregated delta never drives a resource's usage below zero) … -/
 theorem seq_usage_nonneg (evs : List Ev) (r : Res) (hr : r ∈ (AttemptBilling.run AttemptBilling.fresh evs).res) (hq : 0 ≤ r.quantity) :
     0 ≤ r.usage := by
@@ -248,6 +268,9 @@ example : billed (run fresh [⟨some 1, some 1, none, none⟩, ⟨some 1, some 5
 -- late activation_timeout report on an attempt that already has a reason: start is erased, billed drops to 0 (exempted)
 example : upd ⟨some 1, some 2, some 2, some "completed"⟩ ⟨some 1, some 2, some 2, some "activation_timeout"⟩
     = ⟨none, some 2, some 2, some "completed"⟩ := by decide
+-- a late duplicate of the creating / started report reaching an attempt that timed out: the start stays erased, nothing is billed
+example : upd ⟨none, some 4, some 4, some "activation_timeout"⟩ ⟨some 1, some 1, some 4, some "activation_timeout"⟩
+    = ⟨none, some 4, some 4, some "activation_timeout"⟩ := by decide
 -- why `hnull` is needed: a NULL rollup proposed over a stored one erases the billed time
 example : billed (upd ⟨some 1, some 4, none, none⟩ ⟨some 1, none, none, some "error"⟩) = 0 ∧
     billed (⟨some 1, some 4, none, none⟩ : Row) = 3 := by decide
